@@ -280,6 +280,30 @@ Theorem C19_blocks_counters_are_the_regenerated_code : forall c ps G D vec,
 Proof. exact blocks_counters_regen. Qed.
 Print Assumptions C19_blocks_counters_are_the_regenerated_code.
 
+(* ---- T21: what the getters report after close is remembered on EVERY way of letting the writer go: close(), leaving a
+   with block normally, leaving it by an exception -- __exit__ (regenerated from digital_rf_hdf5.py) does exactly what
+   close() does on both paths, close() stores the last file, directory and timestamp before it frees the C object,
+   and a second close does nothing *)
+From Coq Require Import List.
+Import ListNotations.
+From DRF Require Import Gen.CtxMgrGen Proofs.CtxMgrGenProofs.
+Theorem C19_with_block_closes_like_close : forall open exc, fst (gen_exit open exc) = gen_close_actions open.
+Proof. exact exit_closes_on_every_path. Qed.
+Print Assumptions C19_with_block_closes_like_close.
+
+Theorem C19_close_remembers_last_file_before_freeing :
+  In CacheFile (before_free (gen_close_actions true)) /\
+  In CacheDir (before_free (gen_close_actions true)) /\
+  In CacheTimestamp (before_free (gen_close_actions true)) /\
+  length (filter is_free (gen_close_actions true)) = 1%nat /\
+  exists l, gen_close_actions true = l ++ [Free].
+Proof. exact close_remembers_before_it_frees. Qed.
+Print Assumptions C19_close_remembers_last_file_before_freeing.
+
+Theorem C19_second_close_is_a_no_op : gen_close_actions false = [] /\ forall exc, fst (gen_exit false exc) = [].
+Proof. exact second_close_is_a_no_op. Qed.
+Print Assumptions C19_second_close_is_a_no_op.
+
 (* ---- T17: the sources this property rests on keep no state outside the objects the model has (no static locals
    or mutable globals in C, no class-level / module-level containers, `global` rebinding or cache decorators in
    Python): the list of such sites, regenerated from the sources on every run, is empty *)
